@@ -14,9 +14,18 @@
 (*                "flip1": other values) and c.opts is then applied by     *)
 (*                scheme.configure before configure_solver; the property   *)
 (*                quantifies over the final assignment, whatever the route *)
-(*   c.setup    : [ok, stage, msg]       did every set-up call return      *)
-(*   c.arrays   : Seq([name, props])     property + constant names of each *)
-(*                                       particle array after set-up       *)
+(*   c.layout   : "single" (fluids = <<fluid>>, solids = <<solid>> or      *)
+(*                <<>>), "multi" / "multi0" (three fluids, two solids with *)
+(*                DIFFERENT particle counts; multi0: one fluid is empty)   *)
+(*   c.setup    : [ok, stage, msg]       did every set-up call (construct, *)
+(*                configure, configure_solver, setup_properties,           *)
+(*                get_equations, get_solver) return; an exception of any   *)
+(*                kind on this admissible input makes ok FALSE             *)
+(*   c.arrays   : Seq([name, props, n, lens, idx])  property + constant    *)
+(*                names of each particle array after set-up; n = number of *)
+(*                particles; lens = Seq([size, props]) the properties      *)
+(*                grouped by carray length / stride; idx = the values of   *)
+(*                orig_idx (<<>> when the scheme did not add it)           *)
 (*   c.eqs      : Seq([cls, dest, sources, d, s, syms, stage, gd, gs])     *)
 (*                one entry per equation, Group trees and                  *)
 (*                MultiStageEquations flattened in evaluation order;       *)
@@ -114,14 +123,26 @@ P_SetUp(c) == c.setup.ok
 \* in its array; every dest / source / stepper array exists
 P_Complete(c) == c.setup.ok => Witnesses(c) = {}
 P_Generated(c) == c.gen.done => c.gen.ok
+\* per-array data: every property holds one value (x stride) per particle of
+\* ITS array; orig_idx, where a scheme adds it, is either left untouched
+\* (all 0: IISPHScheme leaves the filling to create_particles, see
+\* examples/taylor_green.py) or the particle's own index in its own array
+PerArrayBad(c) ==
+    {a.name : a \in {b \in Range(c.arrays) :
+        \/ \E g \in Range(b.lens) : g.size # b.n
+        \/ /\ "orig_idx" \in Range(b.props)
+           /\ b.idx # [i \in 1 .. b.n |-> i - 1]
+           /\ b.idx # [i \in 1 .. b.n |-> 0]}}
+P_PerArray(c) == c.setup.ok => PerArrayBad(c) = {}
 \* "unavailable": the run needs a package that is not installed here
 P_RunFinite(c) == c.run.done => c.run.kind \in {"ok", "unavailable"}
 
-Clauses == {"SetUp", "Complete", "Generated", "RunFinite"}
+Clauses == {"SetUp", "Complete", "PerArray", "Generated", "RunFinite"}
 Failed(c) ==
     {n \in Clauses :
         ~ CASE n = "SetUp"     -> P_SetUp(c)
             [] n = "Complete"  -> P_Complete(c)
+            [] n = "PerArray"  -> P_PerArray(c)
             [] n = "Generated" -> P_Generated(c)
             [] n = "RunFinite" -> P_RunFinite(c)}
 
@@ -212,10 +233,16 @@ Cond(id, c) ==
       [] id = "C12-psph-ghost-psumdh" -> Opt(c, "has_ghosts") = "True"
       [] OTHER -> FALSE
 
+\* the role an array plays (a signature names the role: with several
+\* fluids the same witness appears once per fluid array)
+ArrRole(n) ==
+    CASE n \in {"fluid", "fluid2", "fluid3"} -> "fluid"
+      [] n \in {"solid", "solid2"} -> "solid"
+      [] OTHER -> n
 SigsOf(c, w, K) ==
     {s.id : s \in {t \in KnownSigs :
         /\ t.id \in K /\ t.scheme = c.scheme /\ Cond(t.id, c)
-        /\ t.cls = w.cls /\ t.role = w.role /\ t.array = w.array
+        /\ t.cls = w.cls /\ t.role = w.role /\ t.array = ArrRole(w.array)
         /\ t.missing = w.missing}}
 
 \* a failure is explained when it is nothing but: witnesses each of which
@@ -236,6 +263,7 @@ Verdict(c, K) ==
         ex == Explained(c, K)
     IN [id |-> c.id, failed |-> f,
         witnesses |-> IF c.setup.ok THEN Witnesses(c) ELSE {},
+        badarrays |-> IF c.setup.ok THEN PerArrayBad(c) ELSE {},
         explained |-> ex,
         known |-> IF ex THEN KnownHit(c, K) ELSE {},
         neqs |-> Len(c.eqs),
